@@ -186,6 +186,115 @@ def judge_fields(case):
     return None
 
 
+def shapes_case(i_seed):
+    """typed additions (Options(addition=T), **extra: T, *args: T), nested containers, and the other class options that change
+    what is checked (ignore_constraints, invalid_* policies, no_data_loss): the same declaration with collect_errors off and on"""
+    import utype
+    from utype.utils import exceptions as exc
+    warnings.simplefilter("ignore")
+    rng = random.Random(i_seed)
+    t = dyn.fresh("Cs")
+    extra = {}
+    if rng.random() < 0.35: extra["ignore_constraints"] = True
+    if rng.random() < 0.2: extra["no_data_loss"] = True
+    if rng.random() < 0.2: extra["invalid_items"] = rng.choice(["exclude", "preserve"])
+    if rng.random() < 0.15: extra["max_errors"] = rng.choice([1, 2, 5])
+    kind = rng.choice(["cls", "cls", "fn"])
+    BAD = rng.choice(["oops", None, [1], "1.x"])
+    good_i = lambda: rng.choice([1, "2", 3.0])
+    item = lambda: BAD if rng.random() < 0.3 else good_i()
+    if kind == "cls":
+        addt = rng.choice([None, "int", "int", "float", "List[int]"])
+        opt = dict(extra)
+        if addt:
+            opt["addition"] = "@" + addt
+        fields = rng.sample([("qty", "List[int]"), ("pair", "Tuple[int, int]"), ("prices", "Dict[str, float]"),
+                             ("ref", "Union[List[int], Dict[str, int], None]"), ("n", "PositiveInt"), ("name", "str = Field(max_length=3)")], rng.randint(1, 4))
+        names = []
+        for collect in (False, True):
+            kw = dict(opt, collect_errors=collect)
+            osrc = ", ".join("%s=%s" % (k, v[1:] if isinstance(v, str) and v.startswith("@") else repr(v)) for k, v in kw.items())
+            nm = "%s%d" % (t, int(collect))
+            src = "class %s(Schema):\n    __options__ = Options(%s)\n    id: int\n" % (nm, osrc)
+            for f, ty in fields:
+                src += "    %s: %s%s\n" % (f, ty, "" if "=" in ty else " = None")
+            try:
+                dyn.declare(src)
+            except Exception:
+                return None
+            names.append(nm)
+        data = {"id": rng.choice([1, "1", "bad"]) if rng.random() < 0.9 else None}
+        for f, ty in fields:
+            if rng.random() < 0.8:
+                data[f] = {"qty": [item() for _ in range(rng.randint(0, 3))], "pair": (item(), item()),
+                           "prices": {"a": item(), "b": item()}, "ref": rng.choice([[item(), item()], {"k": item()}, None]),
+                           "n": rng.choice([1, 0, "3", BAD]), "name": rng.choice(["ab", "toolong", 5])}[f]
+        if rng.random() < 0.6:
+            data["x1"] = item() if addt != "List[int]" else [item(), item()]
+        if rng.random() < 0.3:
+            data["x2"] = item()
+        call = lambda nm: dyn.get(nm)(**data)
+        desc = "%s\ninput %r" % (src, data)
+    else:
+        names = []
+        for collect in (False, True):
+            kw = dict(extra, collect_errors=collect)
+            nm = "%sf%d" % (t, int(collect))
+            src = ("@utype.parse(options=Options(%s))\ndef %s(a: int, qty: List[int] = None, *rest: int, **more: %s):\n    return (a, qty, rest, more)\n"
+                   % (", ".join("%s=%r" % kv for kv in kw.items()), nm, rng.choice(["int"]) ))
+            try:
+                dyn.declare(src)
+            except Exception:
+                return None
+            names.append(nm)
+        args = [rng.choice([1, "1", "bad"])]
+        if rng.random() < 0.7:
+            args.append([item() for _ in range(rng.randint(0, 3))])
+            args += [item() for _ in range(rng.randint(0, 3))]
+        kwargs = {("k%d" % j): item() for j in range(rng.randint(0, 2))}
+        call = lambda nm: dyn.get(nm)(*args, **kwargs)
+        desc = "%s\ncall args %r kwargs %r" % (src, args, kwargs)
+        data = None
+
+    def run(nm):
+        try:
+            r = call(nm)
+            return ("ok", repr(r).replace(nm, "T"))
+        except exc.CollectedParseError as e:
+            return ("fail", sorted(str(getattr(x, "item", None)) for x in e.errors))
+        except exc.ParseError as e:
+            return ("fail", [str(getattr(e, "item", None))])
+        except Exception as e:
+            return ("other", type(e).__name__)
+    ff, co = run(names[0]), run(names[1])
+    if ff[0] == "other" or co[0] == "other":
+        return None if ff == co else "a non-ParseError escaped in one mode only: fail-fast %r, collecting %r\n%s" % (ff, co, desc)
+    if ff[0] != co[0]:
+        return "verdict differs: fail-fast %r, collecting %r\n%s" % (ff, co, desc)
+    if ff[0] == "ok" and ff[1] != co[1]:
+        return "value differs: fail-fast %r, collecting %r\n%s" % (ff[1], co[1], desc)
+    if ff[0] == "fail" and ff[1][0] not in co[1] and not extra.get("max_errors"):
+        return "the item fail-fast stops at (%r) is not among the collected %r\n%s" % (ff[1][0], co[1], desc)
+    return ("ok", ff[0])
+
+
+def shapes_suite(res, tier, seed):
+    n = 3000 if tier == "quick" else 50000
+    outs = core.pool_map(shapes_case, [seed * 1000117 + i for i in range(n)])
+    bad = [o for o in outs if isinstance(o, str)]
+    agg = {}
+    for o in outs:
+        if isinstance(o, tuple):
+            agg[o[1]] = agg.get(o[1], 0) + 1
+    res.add_suite("collect-shapes", n, n, ["seeded declarations: Schema with typed addition / nested container fields, parsed functions with *args: int and **more: int"],
+                  "classes with Options(addition=<type>) and List / Tuple / Dict / Union fields, parsed functions with typed *args and "
+                  "**kwargs, under ignore_constraints / no_data_loss / invalid_items policies / max_errors, each declared with "
+                  "collect_errors off and on; inputs with 0-4 unconvertible spots (fields, elements, additions): same verdict, same "
+                  "value, the item fail-fast stops at is among the collected ones", dict(failures=len(bad), outcomes=agg))
+    for o in bad[:3]:
+        res.violations.append(dict(case=repr(dict(kind="collect-shapes")), observed=o, what=o))
+
+
 def fields_suite(res, rng, tier):
     ncls = 60 if tier == "quick" else 800
     cases = []
@@ -259,6 +368,7 @@ def main(tier, seed):
                                                     failing=c["failing"], extra=c["extra"])),
                                    observed=repr(o), what=msg))
     fields_suite(res, rng, tier)
+    shapes_suite(res, tier, seed)
     return core.finish(res, "make -C coq Props/C10.vo && coqc (Print Assumptions audit)", "see suites", search=None,
                        level_note="C10_same_verdict_and_value is proved for every declared type of the parse calculus (simulation between the "
                                   "fail-fast and the collecting run, construct by construct, tied by induction on the fuel); for data-class field "
